@@ -90,4 +90,20 @@ PROPS = {
         assumptions=["keys that are empty or contain '=' are not judged (POSIX names cannot contain '=')",
                      "vDSO-vs-syscall clock agreement is sampled, not enumerated"],
     ),
+
+    "C09": dict(
+        level="fault_enumeration",
+        technique="forced-value fault enumeration over the syscall seam (SUD) on the real rusl wrappers; exhaustive over all errno values and the stated success value sets; wrapper table checked against a build-time source scan",
+        steps=[_s("h-sys", "c09")],
+        assumptions=["one invocation per wrapper with fixed harmless arguments (result decoding in these wrappers does not depend on the arguments; mount is invoked with and without data, nanosleep with and without rem)",
+                     "the suppressed kernel's out-parameters are zero/plausibly filled by the plan (pipe2 fds 3,4)",
+                     "process::exit (never returns) and the composite setup_io_uring are excluded; wrappers without an error channel only get non-error values"],
+    ),
+    "C12": dict(
+        level="fault_enumeration",
+        technique="fault enumeration over the syscall seam: every descriptor-creating scenario re-run with each of its system calls failing (each errno class; all pairs in the thorough tier), parent and forked child; shadow descriptor/mapping table cross-checked with /proc/self/fd",
+        steps=[_s("h-fd", "c12")],
+        assumptions=["a descriptor handed to Command via Stdio::RawFd is consumed by spawn (closing it is accepted)",
+                     "short transfer counts, munmap failures and triples of faults are not enumerated"],
+    ),
 }
